@@ -6,6 +6,8 @@ import Gomjml.Core.Cli
 import Driver.ApiP
 import Driver.HtmlP
 import Driver.TagP
+import Driver.PassP
+import Driver.TreeP
 /-! Line-protocol driver (E3): first word selects a sub-protocol, one output line per input line.
     Imports only core-only Model/Spec modules so that it links as a `lean_exe`. -/
 open Gomjml
@@ -31,6 +33,12 @@ def handle (line : String) : String :=
   | "layout" :: args => Driver.HtmlP.layoutHandle args
   | "oracle" :: args => Driver.HtmlP.oracleHandle args
   | "tag" :: args => Driver.TagP.handle args
+  | "tree" :: args => Driver.TreeP.handle args
+  | "amp" :: args => Driver.PassP.handle "amp" args
+  | "ent" :: args => Driver.PassP.handle "ent" args
+  | "strip" :: args => Driver.PassP.handle "strip" args
+  | "cdesc" :: args => Driver.PassP.handle "cdesc" args
+  | "cdrt" :: args => Driver.PassP.handle "cdrt" args
   | _ => "bad-request"
 
 partial def loop (hin hout : IO.FS.Stream) : IO Unit := do
